@@ -19,7 +19,7 @@
  *   x? = () unset | (v);  times are (sec nsec);  chunks = list of write sizes (last one repeats;
  *   empty = one write);  flags bit0: stop after this header (the sink then refuses all output), bit1: set the pathname as a wide string made of the bytes' code points,
  *   bit2: do not write the body although size > 0, bit3: uname/gname/linknames via wide strings too,
- *   bit4: add a POSIX.1e access ACL with one named user.
+ *   bit4: add a POSIX.1e access ACL with one named user, bit5: attach Mac OS metadata (321 bytes).
  * result = ( ( open ( (hdr err before after data finish)* ) close total ) bytes
  *            ( format filter ( rentry* ) final err ) )
  * rentry = ( status path? hardlink? symlink? uname? gname? mode uid gid size? mtime? atime? ctime?
@@ -129,6 +129,13 @@ static struct archive_entry *make_entry(val *d)
 	set_str(e, v_at(d, 2), flags & 8, archive_entry_copy_symlink, archive_entry_copy_symlink_w);
 	set_str(e, v_at(d, 3), flags & 8, archive_entry_copy_uname, archive_entry_copy_uname_w);
 	set_str(e, v_at(d, 4), flags & 8, archive_entry_copy_gname, archive_entry_copy_gname_w);
+	if (flags & 32) {	/* Mac OS metadata (an AppleDouble blob): pax writes it as a '._' member of its own in front */
+		unsigned char md[321];
+		size_t k;
+		for (k = 0; k < sizeof(md); k++) md[k] = (unsigned char)(k * 7 + 3);
+		md[0] = 0x00; md[1] = 0x05; md[2] = 0x16; md[3] = 0x07;
+		archive_entry_copy_mac_metadata(e, md, sizeof(md));
+	}
 	if (flags & 16) {	/* a POSIX.1e access ACL with one named user */
 		archive_entry_acl_add_entry(e, ARCHIVE_ENTRY_ACL_TYPE_ACCESS, 7, ARCHIVE_ENTRY_ACL_USER_OBJ, -1, NULL);
 		archive_entry_acl_add_entry(e, ARCHIVE_ENTRY_ACL_TYPE_ACCESS, 4, ARCHIVE_ENTRY_ACL_USER, 77, "u77");
